@@ -26,7 +26,9 @@ LEVEL = "exploration"
 RULE = ("case = (env state, solver) decision: ModelInstance.get_env() envs (n=3: every reachable state through every "
         "order; n=4,5: random trajectories) for hidden games from asymmetric families (noisy_factory*, graph*, xos, "
         "cheerleader_next) and symmetric ones (factory*: many exact ties), with and without a step budget (so that states where "
-        "a probe reports done only because the budget is used up are reached); all four registered solvers. Oracles: "
+        "a probe reports done only because the budget is used up are reached); all four registered solvers; one set of solver "
+        "objects carried through several episodes whose hidden games share the minimal information (identical known values, "
+        "different values in between). Oracles: "
         "returned action valid; env fingerprint (table, steps, hidden and normalised game, observation, mask, done) "
         "identical before/after; greedy/worst: reward of the choice == max/min over all valid actions of the reference "
         "reward, every probe the solver made matches the reference, and the choice is the first index attaining the "
@@ -38,7 +40,7 @@ RULE = ("case = (env state, solver) decision: ModelInstance.get_env() envs (n=3:
         "least two valid actions with different reference rewards (sizes for 'largest').")
 SHARDS = {"quick": 4, "thorough": 16}
 BUDGET = {"quick": 50, "thorough": 420}
-REQUIRED = ["decisions_checked", "fingerprints_compared", "probes_recorded", "tie_states", "expected_greedy_runs",
+REQUIRED = ["episodes_on_shared_minimal_information", "decisions_checked", "fingerprints_compared", "probes_recorded", "tie_states", "expected_greedy_runs",
             "n3_states_all_orders", "decisions_at_last_allowed_step", "states_reached_by_unstep"]
 
 ASYM = ["noisy_factory", "noisy_factory_square", "noisy_factory_fixed", "graph_cycle", "graph_random", "xos", "xs",
@@ -195,6 +197,67 @@ def trajectory(ctx, case) -> None:
                 decision(ctx, case, env, name, s, values)
 
 
+def shared_minimal_games(rng, n: int, k: int) -> list[list[float]]:
+    """k superadditive integer games that agree on the empty coalition, every singleton and the grand coalition and differ
+    in between: what one solver object meets when successive episodes start from identical known values."""
+    from ..gen import _closure_max
+    single = [float(rng.randint(0, 3)) for _ in range(n)]
+    games = []
+    for _ in range(k):
+        w = [0.0] * (1 << n)
+        for m in range(1, 1 << n):
+            w[m] = float(rng.randint(0, 6 * popcount(m))) if popcount(m) > 1 else single[m.bit_length() - 1]
+        v = [float(x) for x in _closure_max(n, w)]
+        games.append(v)
+    top = max(g[-1] for g in games) + float(rng.randint(0, 3))
+    for g in games:
+        g[-1] = top               # raising v(N) keeps a game superadditive
+    return games
+
+
+def episodes(ctx, case) -> None:
+    """ONE set of solver objects, one env, several episodes whose hidden games (case['games']) share the minimal
+    information: every decision in every episode must follow the rule for the hidden game of THAT episode."""
+    from incomplete_cooperative.game import IncompleteCooperativeGame
+    n = case["n"]
+    inst = ModelInstance(number_of_players=n, game_class=case["computer"], game_generator="factory",
+                         gap_function=case["gap"], seed=0, run_steps_limit=case.get("budget"))
+    served = [0]
+
+    def handout():        # cyclic: the env may draw more often than once per episode (construction, solver set-up)
+        g = IncompleteCooperativeGame(n)
+        g.set_values(np.array(case["games"][served[0] % len(case["games"])], dtype=np.float64))
+        served[0] += 1
+        return g
+    inst.game_generator_fn = handout
+    env = inst.get_env()
+    solvers = {name: SOLVERS[name](inst) for name in SOLVERS}
+    sub = dict(case, exact=True, scale=1.0)
+    for ep, acts in enumerate(case["actions"]):
+        try:
+            env.reset()
+            for name, s in solvers.items():
+                s.after_reset(env)
+        except Exception as exc:
+            ctx.violation("solver-raised", f"reset/after_reset of episode {ep} raised {type(exc).__name__}: {exc}", case)
+            return
+        values = [float(x) for x in env.full_game.get_values()]
+        ctx.seen("shared_minimal_hidden_games", str(hash(tuple(values))))   # the rule is judged on what the env really holds
+        ctx.count("episodes_on_shared_minimal_information")
+        for name, s in solvers.items():
+            decision(ctx, sub, env, name, s, values)
+        for a in acts:
+            if bool(env.done) or not np.array(env.action_masks(), dtype=bool)[a]:
+                continue
+            try:
+                env.step(a)
+            except Exception as exc:
+                ctx.violation("env-raised", f"{type(exc).__name__}: {exc} during {a} (episode {ep})", case)
+                return
+            for name, s in solvers.items():
+                decision(ctx, sub, env, name, s, values)
+
+
 def greedy_search(ctx, case) -> None:
     import random as pyrandom
     n, comp, gapname, reps, steps = case["n"], case["computer"], case["gap"], case["samples"], case["steps"]
@@ -269,6 +332,14 @@ def run(ctx) -> None:
                      "actions": [0, 3, 5], "budget": 1, "scale": 1.0})
     greedy_search(ctx, {"n": 3, "generator": "noisy_factory", "computer": "superadditive", "gap": "exploitability", "seed": rng.randint(0, 10**6),
                         "samples": 2, "steps": 2, "processes": 1, "randomize": False, "brute_k": 2, "scale": 1.0})
+    # one set of solver objects through several episodes that start from IDENTICAL known values (same singletons and grand
+    # coalition, different values in between): anything a solver remembers about "this knowledge" is stale there
+    for n_ in (3, 4, 4):
+        games = shared_minimal_games(rng, n_, 4)
+        nexp = (1 << n_) - n_ - 2
+        acts = [rng.sample(range(nexp), rng.randint(1, min(nexp, 3))) for _ in games]
+        episodes(ctx, {"kind": "episodes", "generator": "shared-minimal-information", "n": n_, "computer": rng.choice(sut.SA_COMPUTERS), "gap": rng.choice(list(GAP_FUNCTIONS)),
+                       "games": games, "actions": acts, "budget": None})
     # n = 3: every reachable state through every order
     gens3 = ASYM + SYM
     rng.shuffle(gens3)
@@ -324,7 +395,9 @@ def replay(ctx, case) -> None:
         from ..contracts_suite import run_repo_tests
         run_repo_tests(ctx, case["files"], case["contracts"])
         return
-    if "samples" in case:
+    if case.get("kind") == "episodes":
+        episodes(ctx, case)
+    elif "samples" in case:
         greedy_search(ctx, case)
     else:
         trajectory(ctx, case)
